@@ -861,6 +861,9 @@ std::string handle1(std::vector<std::string> const &t)
 
 std::string handle(std::vector<std::string> const &t)
 {
+  // make the results of the previous lines visible before running this one: a sanitizer death inside a combinator
+  // must be attributed to the line that caused it (UBSan's abort path does not run vh::on_death)
+  std::fflush(stdout);
   if (t.empty())
     return "bad-op";
   if (t[0] == "all9")
